@@ -1,6 +1,5 @@
 #![allow(non_snake_case)]
 
-use convert_case::{Case, Casing};
 use proc_macro2::TokenStream;
 use quote::quote;
 
@@ -381,7 +380,7 @@ fn build_Authentication_from_env(spec: &HirSpec, name: &str) -> TokenStream {
                 .iter()
                 .map(|f| {
                     let basic = matches!(f.location, AuthLocation::Basic);
-                    let field = Ident(f.name.to_case(Case::Snake));
+                    let field = f.name.to_rust_ident();
                     let env_var = qualified_env_var(name, &f.name);
                     let expect = format!("Environment variable {} is not set.", env_var);
                     if basic {
@@ -398,7 +397,7 @@ fn build_Authentication_from_env(spec: &HirSpec, name: &str) -> TokenStream {
                     }
                 })
                 .collect::<Vec<_>>();
-            let variant_name = Ident(strat.name.to_case(Case::Pascal));
+            let variant_name = strat.name.to_rust_struct();
             quote! {
                 pub fn from_env() -> Self {
                     Self::#variant_name {
